@@ -789,10 +789,10 @@ func (am AnchorMatrix) Anchor(index, class int) Anchor {
 		return nil
 	}
 	offset := offsets[class]
-	if offset == 0 {
+	if offset == 0 || len(am.data) < int(offset) { // null or invalid offset
 		return nil
 	}
-	anchor, _, _ := ParseAnchor(am.data[offset:]) // offset is sanitized
+	anchor, _, _ := ParseAnchor(am.data[offset:])
 	return anchor
 }
 
